@@ -905,13 +905,17 @@ func hasEDNSClientSubnet(req *dns.Msg) bool {
 	if req == nil {
 		return false
 	}
-	opt := req.IsEdns0()
-	if opt == nil {
-		return false
-	}
-	for _, option := range opt.Option {
-		if _, ok := option.(*dns.EDNS0_SUBNET); ok {
-			return true
+	// Every OPT record, like edns.hasClientECS: a raw request that reaches
+	// the cache directly may carry more than one.
+	for _, rr := range req.Extra {
+		opt, ok := rr.(*dns.OPT)
+		if !ok {
+			continue
+		}
+		for _, option := range opt.Option {
+			if _, ok := option.(*dns.EDNS0_SUBNET); ok {
+				return true
+			}
 		}
 	}
 	return false
